@@ -47,6 +47,8 @@ def _h(b: bytes) -> int:
 class PyM:
     impl = "py"
 
+    origin = 0
+
     def __init__(self, mh):
         self.mh = mh
         self.m = mh.PyMachine()
@@ -57,6 +59,12 @@ class PyM:
     def event(self, ev):
         if ev["ev"] == "Key":
             (self.m.emu.press_key if ev["press"] else self.m.emu.release_key)(ev["name"])
+        elif ev["ev"] == "Origin":
+            # a machine that has been running for a long time: the cycle counter (and with it every absolute timer target) is
+            # moved close to 2^31; counters and targets are projected relative to this origin
+            e = self.m.emu
+            e.cycle_count = int(ev["c"])
+            e._scheduler.reset(cycle_base=e.cycle_count)
         else:
             self.m.event(ev)
 
@@ -110,11 +118,15 @@ class PyM:
             "kbd": {"kil": kb["kil"], "ko": kb["kol"] * 256 + kb["koh"], "pressed": _h(json.dumps(kb["pressed"]).encode()),
                     "fifo": _h(json.dumps([kb["fifo"], kb["head"], kb["tail"]]).encode()), "keys": _h(json.dumps(kb["keys"]).encode())} if kb else {"kil": 0},
             "timers": {"en": int(bool(sch.enabled)), "pm": int(sch.mti_period), "ps": int(sch.sti_period),
-                       "nm": int(sch.next_mti) if sch.mti_period else 0, "ns": int(sch.next_sti) if sch.sti_period else 0},
+                       "nm": (int(sch.next_mti) - self._org()) if sch.mti_period else 0, "ns": (int(sch.next_sti) - self._org()) if sch.sti_period else 0},
             "irq": {"pend": int(bool(e._irq_pending)), "inint": int(bool(e._in_interrupt)), "src": e._irq_source.name if e._irq_source else "",
                     "stack": len(e._interrupt_stack), "tot": int(e.irq_counts.get("total", 0)), "latched": int(bool(getattr(e, "_key_irq_latched", False)))},
-            "cnt": {"cyc": int(e.cycle_count), "instr": int(e.instruction_count)},
+            "cnt": {"cyc": int(e.cycle_count) - self._org(), "instr": int(e.instruction_count)},
         }
+
+    def _org(self) -> int:
+        # the origin travels with the machine: a restored machine (new object) takes it from the cycle counter it was given
+        return ((1 << 31) - (1 << 16)) if int(self.m.emu.cycle_count) >= (1 << 30) else 0
 
     def common(self) -> Dict[str, Any]:
         o = self.m.obs()
@@ -140,6 +152,8 @@ class RsM:
     def event(self, ev):
         if ev["ev"] == "Key":
             self.vh.call("rt.key", name=self.name, code=ev["code"], press=bool(ev["press"]))
+        elif ev["ev"] == "Origin":
+            pass          # the Rust runtime offers no way to move its cycle counter: the script runs from cycle 0 there
         else:
             self.m.event(ev)
 
@@ -215,6 +229,21 @@ def scripts_for(tier: str, seed: int) -> List[List[Dict[str, Any]]]:
         s += [{"ev": "Step", "ins": {"k": rnd.choice(["NOP", "NOP", "ALU"])}} for _ in range(rnd.choice([84, 96]))]
         s += [{"ev": "Key", "press": False, "code": codes[0], "name": None}]
         s += [{"ev": "Step", "ins": {"k": "NOP"}} for _ in range(8)]
+        out.append(s)
+    # a machine whose cycle counter crosses 2^31 while both timers run (absolute targets no longer fit 31 bits)
+    for i in range(2 if tier == "quick" else 10):
+        s = [{"ev": "Origin", "c": (1 << 31) - rnd.choice([30, 60, 90])}, {"ev": "TimerCfg", "pm": rnd.choice([16, 24]), "ps": rnd.choice([40, 56])},
+             {"ev": "Step", "ins": {"k": "SETIMR", "v": 0x83}}]
+        for _ in range(rnd.choice([30, 44])):
+            r = rnd.random()
+            if r < 0.2:
+                s += [{"ev": "Step", "ins": {"k": "SETI", "v": rnd.choice([3, 6])}}, {"ev": "Step", "ins": {"k": "WAIT"}}]
+            elif r < 0.35:
+                s.append({"ev": "Step", "ins": {"k": "RETI"}})
+            elif r < 0.45:
+                s.append({"ev": "Step", "ins": {"k": "CLRISR", "m": [rnd.choice([0, 1])]}})
+            else:
+                s.append({"ev": "Step", "ins": {"k": rnd.choice(["NOP", "ALU"])}})
         out.append(s)
     return out
 
@@ -437,6 +466,8 @@ def run(cr: CheckRun) -> None:
         layouts.update(r[3])
         for clause, impl, comp, cls, k, detail, lerr, rep in r[1]:
             when = "load" if k <= 1 else "later"
+            if clause == "Loads" and "expected i32" in str(lerr):
+                comp = "value-beyond-i32"          # structural tag: a cycle-derived metadata value no longer fits the reader's integer type
             cr.violation(f"{clause}:{impl}:{comp or 'load'}:{cls}:{when}", f"{impl}: snapshot taken in state [{cls}] at script position {rep['point']}: component '{comp}' differs at continuation "
                          f"position {k} (1 = immediately after the load): {detail} {lerr}", rep)
     # bundle layout: the property's second sentence
